@@ -299,6 +299,23 @@ Proof.
   specialize (IH b Hb ltac:(intros x Hx; apply H; now right)). specialize (H y ltac:(now left)). lia.
 Qed.
 
+(* the guard of the fix of D117 does not fire on a float label array whose cast
+   values are all described *)
+Lemma float_label_guard_false : forall c t ps, 0 < den c ->
+  int_values_ok t (segs c) (cast_in (den c) (Label ps)) = true ->
+  existsb (fun k => k =? den c) (concat ps) && negb (memz 1 (segs c)) = false.
+Proof.
+  intros c t ps Hd Hint. destruct (existsb (fun k => k =? den c) (concat ps)) eqn:E; [|reflexivity].
+  apply existsb_exists in E as (k & Hk & Ek). assert (k = den c) by lia. subst k.
+  cbn [cast_in int_values_ok] in Hint. rewrite forallb_forall in Hint.
+  assert (Hin : In 1 (concat (map (map (cast_float_bin (den c))) ps))).
+  { apply in_concat in Hk as (pl & Hpl & Hk). apply in_concat. exists (map (cast_float_bin (den c)) pl).
+    split; [now apply in_map|]. apply in_map_iff. exists (den c). split; [|exact Hk].
+    unfold cast_float_bin. apply Z.div_same. lia. }
+  specialize (Hint 1 Hin). unfold memz in Hint. cbn [existsb] in Hint. change (1 =? 0) with false in Hint.
+  cbn [orb] in Hint. unfold memz. rewrite Hint. reflexivity.
+Qed.
+
 Theorem cast_accepts : forall c i, valid c i = true -> exists a, check_and_cast c i = Ok a.
 Proof.
   intros c i Hv.
@@ -335,14 +352,15 @@ Proof.
     + apply andb_prop in Hvals as (Hfb & Hint). rewrite forallb_forall in Hfb.
       rewrite existsb_false_of_forall by (intros x Hx; specialize (Hfb x Hx); lia).
       rewrite existsb_false_of_forall by (intros x Hx; specialize (Hfb x Hx); lia).
-      destruct i; eexists; reflexivity.
+      destruct i as [ps|ps]; [|eexists; reflexivity].
+      rewrite (float_label_guard_false c BINARY ps Hden Hint). eexists; reflexivity.
     + rewrite forallb_forall in Hvals.
       rewrite existsb_false_of_forall by (intros x Hx; specialize (Hvals x Hx); lia).
       destruct i; eexists; reflexivity.
     + apply andb_prop in Hvals as (Hfb & Hint). rewrite forallb_forall in Hfb.
       rewrite existsb_false_of_forall by (intros x Hx; specialize (Hfb x Hx); lia).
       rewrite existsb_false_of_forall by (intros x Hx; specialize (Hfb x Hx); lia).
-      destruct i as [ps|ps]; [eexists; reflexivity|].
+      destruct i as [ps|ps]; [rewrite (float_label_guard_false c LABELMAP ps Hden Hint); eexists; reflexivity|].
       cbn [cast_in int_values_ok] in Hint. apply andb_prop in Hint as (_ & Hov).
       apply negb_true_iff in Hov. rewrite Hov, andb_false_r. eexists; reflexivity.
 Qed.
@@ -432,7 +450,11 @@ Proof.
     destruct (ty c); [exact Hx| |contradiction]. specialize (Hmf1 eq_refl). nia.
   - (* float label array *)
     apply andb_prop in Hval as (Hval & Hvals). apply andb_prop in Hval as (Hden & Hone).
-    assert (Hd : 0 < den c) by lia. cbn [is_stack] in Hone. apply list_eqb_eq in Hone.
+    assert (Hd : 0 < den c) by lia.
+    assert (Hone' : list_eqb (segs c) [1] = true).
+    { unfold float_label_ok in Hone. cbn [is_stack] in Hone.
+      destruct (ty c); [| |congruence]; cbn [is_labelmap] in Hone; now rewrite orb_false_r in Hone. }
+    clear Hone. rename Hone' into Hone. apply list_eqb_eq in Hone.
     pose proof (shape_label c ps j Hsh ltac:(lia)) as Hlen.
     assert (Hk0 : 0 <= 0 < zlen (segs c)) by (rewrite Hone; unfold zlen; cbn; lia).
     destruct (ty c) eqn:Et; [| |contradiction]; subst a; cbv beta iota in Hne; apply negb_true_iff in Hne.
